@@ -39,6 +39,11 @@ pub const CL_CONFIGS: &[&[&str]] = &[
     &["N, N"],
     &["N", "0N"],
     &["-N"],
+    // control bytes other than HTAB inside the value (not a valid field value at all)
+    &["N\u{0}"],
+    &["\u{b}N"],
+    &["N", "N\u{0}"],
+    &["N\u{7f}", "N"],
 ];
 pub const TES: &[&[&str]] = &[
     &[],
@@ -162,7 +167,7 @@ fn gzip(data: &[u8]) -> Vec<u8> {
 impl Property for C03 {
     type Case = Case;
     const ID: &'static str = "C03";
-    const RULE: &'static str = "cases drawn from (thorough: all of) the product method{8} x status{13} x Content-Length configuration{24} x Transfer-Encoding{7} x \
+    const RULE: &'static str = "cases drawn from (thorough: all of) the product method{8} x status{13} x Content-Length configuration{28} x Transfer-Encoding{7} x \
 Content-Encoding{2} x bytes after the frame{3} x segmentation{3} x payload length{2}; the reference model (RFC 9112 6.3) decides the governing framing and the builder lays the body \
 out for it; outcome (Ok/Err and bytes) compared exactly. non-trivial = two framing signals in conflict, or a bodiless method/status carrying framing or coding headers, or an invalid/disagreeing \
 Content-Length; distinct by case index";
